@@ -83,6 +83,20 @@ class _Ctx:
     scenario = None
     trace = None
     draws = 0
+    limit = 60000
+
+
+class Runaway(BaseException):
+    """The implementation did not stop (trace limit or wall-clock limit hit)."""
+
+
+def _guard():
+    if len(CTX.trace) > CTX.limit:
+        raise Runaway("trace limit")
+
+
+def _alarm(signum, frame):
+    raise Runaway("time limit")
 
 
 CTX = _Ctx()
@@ -116,6 +130,7 @@ class ScriptedProtocol(IProtocol):
         self._controller = None
 
     def _fire(self, kind, value, desc):
+        _guard()
         nid = self.provider.get_id()
         now = self.provider.current_time()
         CTX.trace.append("cb %d %s %s" % (nid, fhex(now), desc))
@@ -209,7 +224,44 @@ class ProtoA2(ProtoA):
 PROTO = {0: ProtoA, 1: ProtoB, 2: ProtoA2}
 
 
+class RecorderBase(INodeHandler):
+    """Recording handler whose hooks are inherited by the concrete class (odd-numbered recorders)."""
+    J = -1
+
+    @staticmethod
+    def get_label():
+        return "recbase"
+
+    def inject(self, event_loop):
+        pass
+
+    def register_node(self, node):
+        pass
+
+    def initialize(self):
+        CTX.trace.append("hinit %d" % self.J)
+
+    def after_simulation_step(self, iteration, timestamp):
+        _guard()
+        CTX.trace.append("hafter %d %d %s" % (self.J, iteration, fhex(timestamp)))
+
+    def finalize(self):
+        CTX.trace.append("hfinal %d" % self.J)
+
+
 def make_recorder(j):
+    if j % 2 == 1:
+        class Middle(RecorderBase):
+            pass
+
+        class Inherited(Middle):
+            J = j
+
+            @staticmethod
+            def get_label():
+                return "rec%d" % j
+        return Inherited()
+
     class Recorder(INodeHandler):
         @staticmethod
         def get_label():
@@ -225,6 +277,7 @@ def make_recorder(j):
             CTX.trace.append("hinit %d" % j)
 
         def after_simulation_step(self, iteration, timestamp):
+            _guard()
             CTX.trace.append("hafter %d %d %s" % (j, iteration, fhex(timestamp)))
 
         def finalize(self):
@@ -291,6 +344,9 @@ def run_sim_impl(sc, variant=None):
             CTX.draws += 1
             return orig_random()
         random.random = counting
+    import signal
+    old_handler = signal.signal(signal.SIGALRM, _alarm)
+    signal.setitimer(signal.ITIMER_REAL, sc.get("time_limit", 20.0))
     try:
         with _Quiet():
             cfg = SimulationConfiguration(duration=sc["dur"], max_iterations=sc["maxit"],
@@ -325,9 +381,11 @@ def run_sim_impl(sc, variant=None):
             sim = b.build()
             status = "done"
             drv = sc["drv"]
-            if drv[0] == "run":
+            if drv[0] in ("run", "runrun"):
                 try:
                     sim.start_simulation()
+                    if drv[0] == "runrun":
+                        sim.start_simulation()
                 except FailedAssertionException as e:
                     CTX.trace.append(_assert_line(e))
                     status = "aborted"
@@ -344,9 +402,21 @@ def run_sim_impl(sc, variant=None):
                     CTX.trace.append("ret %s" % ("true" if r else "false"))
                     if not r:
                         status = "done"
+                if drv[0] == "mixed" and status != "aborted":
+                    try:
+                        sim.start_simulation()
+                        status = "done"
+                    except FailedAssertionException as e:
+                        CTX.trace.append(_assert_line(e))
+                        status = "aborted"
             it_count = getattr(sim, "_iteration", "?")
             CTX.trace.append("end %s iter %s draws %d" % (status, it_count, CTX.draws))
+    except Runaway as e:
+        del CTX.trace[3000:]
+        CTX.trace.append("runaway %s" % e)
     finally:
+        signal.setitimer(signal.ITIMER_REAL, 0)
+        signal.signal(signal.SIGALRM, old_handler)
         random.random = orig_random
     return CTX.trace, CTX.draws
 
@@ -385,6 +455,10 @@ def sim_to_text(sid, sc, stream, fuel=400000, show_exec=False):
     p.append("MAXIT %s" % ("none" if sc["maxit"] is None else "some %d" % sc["maxit"]))
     if sc["drv"][0] == "run":
         p.append("DRV run %d" % fuel)
+    elif sc["drv"][0] == "runrun":
+        p.append("DRV runrun %d" % fuel)
+    elif sc["drv"][0] == "mixed":
+        p.append("DRV mixed %d %d" % (sc["drv"][1], fuel))
     else:
         p.append("DRV steps %d" % sc["drv"][1])
     if show_exec:
